@@ -1909,8 +1909,14 @@ class Interp:
         if k == 'adt':
             vs = self.enum_variants(rt)
             lay = self.find_layout(rt)
-            if vs is not None and lay is not None and any(nf for _, _, nf in vs):
-                raise Unsupported('opaque result of data-carrying enum %s' % short_ty(rt))
+            if vs is not None and any(nf for _, _, nf in vs):
+                # data-carrying enum of the crate: one outcome per variant, payloads unknown
+                outs = []
+                for i, (vn, d, nf) in enumerate(vs):
+                    s2 = st.clone() if i < len(vs) - 1 else st
+                    s2.events.append(('opaque-result', tag, vn))
+                    outs.append(Outcome(s2, 'ret', Enum(rt['name'], i, vn, [Opaque('%s.%s.%d' % (tag, vn, j)) for j in range(nf)])))
+                return outs
         if k == 'rawptr':
             return [Outcome(st, 'ret', Ptr(tag=tag))]
         if k == 'never':
